@@ -546,9 +546,9 @@ func main() {
 	r = rng.Fork("zerogroups")
 	{
 		built, failed := 0, 0
-		widths := []int{5, 10}
+		widths := []int{5, 10, 20} // a run of 2g-1 digits contains a group aligned for ANY grouping by g digits: 20 covers g <= 10
 		if cfg.Thorough() || cfg.Search {
-			widths = []int{5, 10, 15, 20, 6, 9}
+			widths = []int{5, 10, 15, 20, 6, 9, 30}
 		}
 		for round := 0; round < scale(1, 4, 16); round++ {
 			for lo := 10; lo <= 100; lo += 5 {
